@@ -7,16 +7,23 @@ package main
 // (Values/Scope.v, Values/Deps.v) are evaluated on the same loaded tree via Run/RunC11.v.
 
 import (
+	"bytes"
 	"encoding/json"
 	"fmt"
+	"io"
 	"math/rand"
 	"sort"
 	"strings"
 
+	"helm.sh/helm/v4/pkg/action"
 	chart "helm.sh/helm/v4/pkg/chart/v2"
 	"helm.sh/helm/v4/pkg/chart/v2/loader"
 	chartutil "helm.sh/helm/v4/pkg/chart/v2/util"
 	"helm.sh/helm/v4/pkg/engine"
+	"helm.sh/helm/v4/pkg/kube"
+	kubefake "helm.sh/helm/v4/pkg/kube/fake"
+	"helm.sh/helm/v4/pkg/storage"
+	"helm.sh/helm/v4/pkg/storage/driver"
 
 	"verif/harness/internal/hx"
 )
@@ -26,7 +33,7 @@ func init() { hx.Register("c11", func() hx.Property { return &c11{} }) }
 type c11 struct{}
 
 type c11Case struct {
-	Kind  string         `json:"kind"` // corpus | tt | tt2 | tt3 | gen | malformed
+	Kind  string         `json:"kind"` // corpus | tt | tt2 | tt3 | crd | gen | malformed
 	Chart *vChart        `json:"chart"`
 	Vals  map[string]any `json:"vals"`
 }
@@ -48,6 +55,10 @@ type c11Run struct {
 type c11Obs struct {
 	c11Run
 	Meta      []string `json:"meta,omitempty"` // metamorphic oracle findings
+	// real (non-dry-run) action.Install with a recording kube client: names of the crds/ files
+	// handed to KubeClient.Build/Create by installCRDs, in order
+	InstallRan bool     `json:"installRan,omitempty"`
+	CRDsSent   []string `json:"crdsSent"`
 	chartTerm string
 	compat    string
 }
@@ -131,7 +142,79 @@ func (*c11) Execute(ci any) any {
 	if obs.Stage == "ok" && (c.Kind == "gen" || c.Kind == "corpus") {
 		obs.Meta = c11Metamorphic(c, obs.c11Run)
 	}
+	obs.CRDsSent = []string{}
+	if obs.Stage != "load-error" && obs.Stage != "panic" && !strings.HasPrefix(c.Kind, "tt") {
+		obs.CRDsSent, obs.InstallRan = c11InstallCRDs(c.Chart, c.Vals)
+	}
 	return obs
+}
+
+// ---------- real install: which CRDs reach the cluster
+
+type c11Kube struct {
+	*kubefake.PrintingKubeClient
+	crds []string
+}
+
+// installCRDs hands every crds/ file to Build and then Create, one file at a time
+func (k *c11Kube) Build(r io.Reader, validate bool) (kube.ResourceList, error) {
+	b, _ := io.ReadAll(r)
+	if bytes.Contains(b, []byte("kind: CustomResourceDefinition")) {
+		for _, l := range strings.Split(string(b), "\n") {
+			if strings.HasPrefix(l, "# crd-id: ") {
+				k.crds = append(k.crds, "crds/"+strings.TrimPrefix(l, "# crd-id: ")+".yaml")
+			}
+		}
+	}
+	return k.PrintingKubeClient.Build(bytes.NewReader(b), validate)
+}
+
+const c11InstallTemplate = "apiVersion: v1\nkind: ConfigMap\nmetadata:\n  name: {{ .Release.Name }}-{{ .Chart.Name }}\ndata:\n  v: {{ toJson .Values | quote }}\n"
+
+func c11InstallCRDs(desc *vChart, vals map[string]any) (sent []string, ran bool) {
+	defer func() {
+		if p := recover(); p != nil {
+			sent, ran = []string{}, false
+		}
+	}()
+	ch, err := loader.LoadFiles(desc.files("", c11InstallTemplate))
+	if err != nil {
+		return []string{}, false
+	}
+	k := &c11Kube{PrintingKubeClient: &kubefake.PrintingKubeClient{Out: io.Discard, LogOutput: io.Discard}}
+	cfg := &action.Configuration{Releases: storage.Init(driver.NewMemory()), KubeClient: k, Capabilities: chartutil.DefaultCapabilities}
+	in := action.NewInstall(cfg)
+	in.ReleaseName, in.Namespace = "rel", "spaced"
+	in.Run(ch, deepCopyVals(vals)) // the outcome of the install itself is not the subject here
+	if k.crds == nil {
+		k.crds = []string{}
+	}
+	return k.crds, true
+}
+
+// expectedCRDs: the crds/ file of the root and of every chart directory whose probe template
+// was rendered by the real ProcessDependencies + Render (once per rendered copy), sorted.
+func expectedCRDs(c c11Case, rendered map[string]any) (ids []string, ok bool) {
+	for p := range rendered {
+		segs := strings.Split(strings.TrimSuffix(p, "/"+probeTemplate), "/charts/")
+		if len(segs) == 0 || segs[0] != c.Chart.Name {
+			return nil, false
+		}
+		d, prefix := c.Chart, ""
+		for _, sgm := range segs[1:] {
+			dk, amb := descOf(d, sgm)
+			if dk == nil || amb {
+				return nil, false
+			}
+			prefix += "charts/" + dk.Name + "/"
+			d = dk
+		}
+		if d.CRDs {
+			ids = append(ids, "crds/"+crdID(prefix)+".yaml")
+		}
+	}
+	sort.Strings(ids)
+	return ids, true
 }
 
 // ---------- oracle
@@ -429,8 +512,24 @@ func (*c11) Oracle(ci, oi any) []hx.Violation {
 	if obs.Stage == "panic" {
 		return []hx.Violation{{Sig: "C11:panic", What: "dependency processing / rendering panicked: " + obs.Err}}
 	}
+	if obs.Stage == "deps-error" && obs.InstallRan && len(obs.CRDsSent) > 0 {
+		return []hx.Violation{{Sig: "C11:crds-sent-although-dependency-processing-failed",
+			What: fmt.Sprintf("install sent CRDs %v although ProcessDependencies fails on this chart and values", obs.CRDsSent)}}
+	}
 	if obs.Stage != "ok" {
 		return nil
+	}
+	if obs.InstallRan {
+		// a disabled dependency contributes no CRDs: what a real install sends from crds/ is the
+		// root's file plus exactly the files of the charts that are rendered (enabled)
+		if want, ok := expectedCRDs(c, obs.Rendered); ok {
+			got := append([]string{}, obs.CRDsSent...)
+			sort.Strings(got)
+			if strings.Join(got, ",") != strings.Join(want, ",") {
+				vs = append(vs, hx.Violation{Sig: "C11:crds-sent-differ-from-enabled-charts",
+					What: fmt.Sprintf("a real install sent the CRDs %v; the root plus the enabled (rendered) charts ship %v", got, want)})
+			}
+		}
 	}
 	rendered := func(path string) bool { _, ok := obs.Rendered[path]; return ok }
 	switch c.Kind {
@@ -651,7 +750,11 @@ func (*c11) CoqCase(ci, oi any) string {
 		// load errors, template errors and panics are outside the model
 		return "mkSkip"
 	}
-	return fmt.Sprintf("(mkCase %s %s %s %s)", obs.chartTerm, coqVMap(deepCopyVals(c.Vals)), obs.compat, o)
+	crds := "None"
+	if obs.InstallRan {
+		crds = "(Some " + coqStrList(obs.CRDsSent) + ")"
+	}
+	return fmt.Sprintf("(mkCase %s %s %s %s %s)", obs.chartTerm, coqVMap(deepCopyVals(c.Vals)), obs.compat, o, crds)
 }
 
 func (*c11) Class(ci, oi any) string {
@@ -719,6 +822,10 @@ func (*c11) Corpus() []any {
 			Charts: []*vChart{leaf("suba", tbl("enabled", true))},
 			Deps:   []vDep{{Name: "suba", Version: "1.0.0", Condition: "suba.enabled", Tags: []string{"t1"}}}},
 		Vals: tbl()})
+	// CRDs: disabled subcharts (by condition, by tag, at depth 2, aliased) ship crds/ too; a real
+	// install must send only the root's and the enabled ones'
+	out = append(out, c11CRDCase(false, "false", "true", true))
+	out = append(out, c11CRDCase(true, "absent", "false", false))
 	// known finding: a subchart whose name contains a dot gets an empty scope (recAllTpls looks
 	// its values up with a dotted path), not even its own defaults or globals
 	out = append(out, c11Case{Kind: "corpus",
@@ -727,6 +834,27 @@ func (*c11) Corpus() []any {
 			Deps:   []vDep{{Name: "my.sub", Version: "1.0.0"}}},
 		Vals: tbl()})
 	return out
+}
+
+// c11CRDCase: every chart ships one crds/ file. suba (condition suba.enabled) carries gca as g1
+// (tag t1); subb is required twice, as b1 (tag t2) and as b2 (condition b2.on); subc is plain.
+func c11CRDCase(subaOn bool, t1, t2 string, b2On bool) c11Case {
+	leaf := func(n string) *vChart { return &vChart{Name: n, Version: "1.0.0", Values: map[string]any{"k": 1.0}, CRDs: true} }
+	suba := leaf("suba")
+	suba.Charts = []*vChart{leaf("gca")}
+	suba.Deps = []vDep{{Name: "gca", Version: "1.0.0", Alias: "g1", Tags: []string{"t1"}}}
+	top := &vChart{Name: "top", Version: "1.0.0", Values: map[string]any{}, CRDs: true,
+		Charts: []*vChart{suba, leaf("subb"), leaf("subc")},
+		Deps: []vDep{{Name: "suba", Version: "1.0.0", Condition: "suba.enabled"},
+			{Name: "subb", Version: "1.0.0", Alias: "b1", Tags: []string{"t2"}},
+			{Name: "subb", Version: "1.0.0", Alias: "b2", Condition: "b2.on"},
+			{Name: "subc", Version: "1.0.0"}}}
+	vals := map[string]any{}
+	setPath(vals, subaOn, "suba", "enabled")
+	setPath(vals, b2On, "b2", "on")
+	put(vals, t1, "tags", "t1")
+	put(vals, t2, "tags", "t2")
+	return c11Case{Kind: "crd", Chart: top, Vals: vals}
 }
 
 // ---------- exhaustive truth tables
@@ -821,6 +949,16 @@ func (*c11) Exhaustive(tier string) []any {
 									Deps:   []vDep{{Name: "gca", Version: "1.0.0", Condition: "gca.enabled", Tags: []string{"t1"}}}}},
 								Deps: []vDep{{Name: "suba", Version: "1.0.0"}}}})
 					}
+				}
+			}
+		}
+	}
+	// CRDs of enabled / disabled subcharts through a real install
+	for _, subaOn := range []bool{true, false} {
+		for _, t1 := range three {
+			for _, t2 := range three {
+				for _, b2On := range []bool{true, false} {
+					out = append(out, c11CRDCase(subaOn, t1, t2, b2On))
 				}
 			}
 		}
@@ -1088,6 +1226,7 @@ func (g *c11Gen) tree() *vChart {
 	}
 	var fill func(c *vChart, depth int)
 	fill = func(c *vChart, depth int) {
+		c.CRDs = g.r.Intn(3) == 0
 		g.requirements(c)
 		for _, s := range c.Charts {
 			fill(s, depth+1)
